@@ -18,7 +18,14 @@ What is modelled, statement by statement:
   `LookupError` when the variable is unset.  Events `wireStart`, `wireEnd`.
 * `RequestContextManager.__exit__`: `reset(token)`; if the old value is not MISSING, the values
   `self.ctx.get("request_start")`, `self.ctx.get("request_end")` (Python `None` when the key is absent) are
-  written into the parent dict with the same two update functions.  Event `close`.
+  written into the parent dict with the same two update functions.  Event `close τ exc`: `exc = true` is an exit
+  with an exception (`exc_type is not None`: a sub-request that timed out / raised ApiError, a cancelled stream).
+  The code does not look at `exc_type` and returns `False` (the exception goes on), so both exit kinds propagate
+  alike; the flag is part of the event so that traces with failing requests are first-class citizens of the
+  theorems and of the correspondence check.
+* a wire request that FAILS still ends: factory.py registers `on_request_end` for aiohttp's `on_request_exception`
+  (as for `on_response_chunk_received` / `on_request_end`), so a failed request is `wireStart … wireEnd` followed by
+  the `close τ true` of every context the exception passes through.
   `with` blocks are LIFO per task, so the token's old value is the second element of `chain`.
 * `spawn p c` = `asyncio.create_task` inside a request (Composite.run_stream): `c` starts with `p`'s pointer.
   `client c` = a task created where the variable is unset (AsyncIoAdapter.run → `gather`).
@@ -78,7 +85,7 @@ inductive CEv
   | open_ (task ctx : Nat)
   | wireStart (task : Nat) (t : Rat)
   | wireEnd (task : Nat) (t : Rat)
-  | close (task : Nat)
+  | close (task : Nat) (exc : Bool)
   deriving DecidableEq
 
 /-- the task an event belongs to (a task's creation belongs to the created task for `client`,
@@ -89,7 +96,7 @@ def CEv.task : CEv → Nat
   | .open_ τ _ => τ
   | .wireStart τ _ => τ
   | .wireEnd τ _ => τ
-  | .close τ => τ
+  | .close τ _ => τ
 
 def CEv.isSpawn : CEv → Bool
   | .spawn _ _ => true
@@ -180,7 +187,7 @@ def step (fx : Bool) (s : St) : CEv → Except Err St
                  names := c :: s.names }
   | .wireStart τ t => wire fx s τ true t
   | .wireEnd τ t => wire fx s τ false t
-  | .close τ =>
+  | .close τ _ =>
     match s.tasks τ with
     | none => .error .noTask
     | some tk =>
